@@ -196,6 +196,10 @@ def gen_cases(tier, seed):
         for p in range(math.factorial(nready)):
             for trig in (("pub", "ctl") if tier == "thorough" else (rng.choice(["pub", "ctl"]),)):
                 cases.append({"mode": "pair", "a": a, "b": b, "perm": p, "trigger": trig, "tc": False})
+    # (vi') structure-aware fuzz: long streams of well-framed frames with random header fields, types and payloads
+    nfuzz = 40 if tier == "quick" else 1500
+    for i in range(nfuzz):
+        cases.append({"mode": "fuzz", "seed": rng.getrandbits(40), "stage": STAGES[i % len(STAGES)], "nframes": rng.choice([20, 60, 150]), "tc": i % 7 == 6})
     # (vii) floods
     floods = [("dyn", 50), ("dyn", 101), ("plain", 257)] if tier == "quick" else \
         [("dyn", 50), ("dyn", 101), ("dyn", 150), ("plain", 257), ("plain", 300), ("plain", 400), ("v1dyn", 120)]
@@ -255,7 +259,30 @@ def run_case(case, tier):
         sc = Scenario(rig, 0)
         sc.max_drain = 64
         steps = list(PRE)
-        if case["mode"] == "single":
+        if case["mode"] == "fuzz":
+            r = random.Random(case["seed"])
+            steps += stage_steps("O", case["stage"], 30)
+            pool_t = list(W.CONTROL_TYPES) * 3 + list(range(0, 100)) + [9999, 10000, -1, 2 ** 31 - 1, -2 ** 31, ALL, T, T]
+            for k in range(case["nframes"]):
+                t = r.choice(pool_t)
+                ln = r.choice([0, 0, 4, 4, 8, 44, 32, 80, r.randint(0, 300), 1024])
+                payload = bytes(r.getrandbits(8) for _ in range(ln)) if r.random() < 0.7 else struct.pack("<i", r.choice([T, ALL, 0, -1, 30, 2 ** 31 - 1])) .ljust(ln, b"\0")[:ln]
+                if t == W.MT_DISCONNECT and r.random() < 0.8:
+                    t = T
+                if t == W.MT_CONNECT_V2 and len(payload) >= 8:
+                    # keep the requested id away from the ids the bystander / fresh probe clients use (80, 81, 90-92)
+                    payload = payload[:6] + struct.pack("<h", r.choice([0, 1, 30, 99, 100, 101, -1, 32767, 200])) + payload[8:]
+                hdr = dict(msg_count=r.choice(I32), send_time=r.choice(F64), recv_time=r.choice(F64), src_host=r.choice(I16), src_mod=r.choice(I16 + [30]),
+                           dest_host=r.choice(I16 + [0, 0, 0]), dest_mod=r.choice(I16 + [0, 0, 90, 91]), remaining=r.choice(I32), is_dynamic=r.choice(I32),
+                           reserved=r.choice(U32))
+                steps.append(["raw", "O", W.frame_bytes(t, payload, timecode=tc, **hdr).hex(), 1, f"fuzz frame type {t} len {ln}"])
+                if r.random() < 0.2:
+                    steps.append(["round", {"seed": r.getrandbits(30), "adv": r.choice([0.001, 0.5, 1.2])}])
+            if r.random() < 0.5:
+                steps += [["close", "O", r.choice(["fin", "rst"])]]
+            steps += [["pub", "BP", T, 0, 0, 8], ["drain", {"adv": 0.001}]]
+            case = dict(case, fault={"kind": "fuzz", "stage": case["stage"], "note": f"{case['nframes']} random well-framed frames"}, mode="single")
+        elif case["mode"] == "single":
             f = case["fault"]
             steps += stage_steps("O", f["stage"], 30)
             for hx, n in f["raws"]:
